@@ -7,13 +7,13 @@ static void build(cat_var_type t, int ds, cat_var_access acc, int nvar, int pos,
 {
         struct wcmd *c = sw_table(1);
         strcpy(c[0].name, "+B");
-        c[0].hmask = handler ? HM_W : 0;
+        c[0].hmask = (handler & 1) ? HM_W : 0;
         c[0].nvar = (uint8_t)nvar;
         for (int i = 0; i < nvar; i++) {
                 struct wvar *v = &c[0].var[i];
                 memset(v, 0, sizeof *v);
                 v->wcb = 1;
-                if (i == pos) { v->type = t; v->size = (uint8_t)ds; v->access = acc; }
+                if (i == pos) { v->type = t; v->size = (uint8_t)ds; v->access = acc; if (acc == CAT_VAR_ACCESS_READ_ONLY && (handler & 2)) v->wcb = 0; }
                 else { v->type = CAT_VAR_UINT_DEC; v->size = 1; v->access = CAT_VAR_ACCESS_READ_WRITE; }
         }
         g_nvar = nvar; g_pos = pos;
@@ -224,7 +224,7 @@ int main(int argc, char **argv)
                                         if (lite && !(ds <= 3 || ds == 8 || ds >= 63)) continue;
                                         if (lite && pos == 1) continue;
                                         if (sw_expired()) goto out;
-                                        build(t, ds, (cat_var_access)acc, 3, pos, (idx & 1));
+                                        build(t, ds, (cat_var_access)acc, 3, pos, (idx & 1) | ((ds & 1) ? 2 : 0));    /* bit 1: a read-only variable under test has no write callback */
                                         snprintf(SW.extra, sizeof SW.extra, "type=%s data_size=%d access=%d pos=%d", ti ? "string" : "hexbuf", ds, acc, pos);
                                         if (structured(t, ds)) goto out;
                                         if (ds <= 3 && pos == 0) {
